@@ -1,8 +1,11 @@
+#![allow(dead_code, unused_imports, unused_variables)]
 //! verif-harness: drives the real unic-langid / unic-locale code in /repo and prints one
 //! protocol line per case (see common.rs); the extracted Coq oracle reads them.
 mod common;
 mod subtags;
 mod likely;
+mod gen;
+mod langid;
 
 use common::*;
 
@@ -31,6 +34,7 @@ fn main() {
             match suite {
                 "subtags" => subtags::run(&mut out, tier, &mut rng),
                 "likely" => likely::run(&mut out, tier, &mut rng),
+                "langid" => langid::run(&mut out, tier, &mut rng),
                 _ => {
                     eprintln!("unknown suite {}", suite);
                     std::process::exit(2);
@@ -87,6 +91,15 @@ fn replay_one(out: &mut Out, op: &str, a: &[Vec<u8>]) {
         "script_raw" => out.case(op, &refs, || subtags::script_raw(a0)),
         "region_raw" => out.case(op, &refs, || subtags::region_raw(a0)),
         "variant_raw" => out.case(op, &refs, || subtags::variant_raw(a0)),
+        "langid" => out.case(op, &refs, || langid::langid(a0)),
+        "li_canonicalize" => out.case(op, &refs, || langid::li_canonicalize(a0)),
+        "li_roundtrip" => out.case(op, &refs, || langid::li_roundtrip(a0)),
+        "li_from_parts" => out.case(op, &refs, || langid::li_from_parts(&refs)),
+        "li_into_parts" => out.case(op, &refs, || langid::li_into_parts(a0)),
+        "li_matches" => out.case(op, &refs, || langid::li_matches(a0, a1, a2 == b"1", refs.get(3).copied().unwrap_or(&[]) == b"1")),
+        "lang_matches" => out.case(op, &refs, || langid::lang_matches(a0, a1, a2 == b"1", refs.get(3).copied().unwrap_or(&[]) == b"1")),
+        "li_cmp" => out.case(op, &refs, || langid::li_cmp(a0, a1)),
+        "li_eq_str" => out.case(op, &refs, || langid::li_eq_str(a0, a1)),
         "maximize" => out.case(op, &refs, || likely::maximize(a0, a1, a2)),
         "minimize" => out.case(op, &refs, || likely::minimize(a0, a1, a2)),
         "li_maximize" => out.case(op, &refs, || likely::li_change(a0, true)),
